@@ -236,6 +236,8 @@ def depth(x, p):
     if len(lines) != len(sig_idx) + 1:
         return
     for j, i in enumerate(sig_idx):
+        if isinstance(toks[i], lexer.TokComment):
+            continue        # the clause is about lines that begin with code
         line = lines[j]
         n = 0
         while n < len(line) and line[n] == 32:
